@@ -7,14 +7,14 @@ import json, os, re, shutil, subprocess, sys
 ROOT = os.path.dirname(os.path.dirname(os.path.abspath(__file__)))
 prop, var, needs = sys.argv[1], sys.argv[2], sys.argv[3]
 src = sys.argv[4] if len(sys.argv) > 4 else "/tmp/seed-%s/_seed/%s" % (prop, var)
-first = open(os.path.join(src, "demo_test.go")).readline()
+first = open(os.path.join(src, "demo_test.go"), errors="replace").readline()
 m = re.search(r"place in\s+([A-Za-z0-9_./-]+)", first)
 if not m:
     sys.exit("cannot read the package dir from the first line of demo_test.go: %r" % first)
 pkg = m.group(1).strip().rstrip("/")
 if pkg.endswith(".go"):
     pkg = os.path.dirname(pkg)
-p = subprocess.run([os.path.join(ROOT, "tools", "verify_seed.sh"), src, pkg], stdout=subprocess.PIPE, stderr=subprocess.STDOUT, text=True)
+p = subprocess.run([os.path.join(ROOT, "tools", "verify_seed.sh"), src, pkg], stdout=subprocess.PIPE, stderr=subprocess.STDOUT, text=True, errors="replace")
 tail = p.stdout[-1500:]
 print(tail)
 if p.returncode != 0 or "SEED CONFIRMED" not in p.stdout:
@@ -26,7 +26,7 @@ for f in ("patch.diff", "demo_test.go", "notes.md"):
     if os.path.exists(os.path.join(src, f)):
         shutil.copy(os.path.join(src, f), os.path.join(dst, f))
 res = re.search(r"RESULT (.*)", p.stdout)
-files = sorted(set(re.findall(r"^\+\+\+ b/(\S+)", open(os.path.join(src, "patch.diff")).read(), re.M)))
+files = sorted(set(re.findall(r"^\+\+\+ b/(\S+)", open(os.path.join(src, "patch.diff"), errors="replace").read(), re.M)))
 meta = {
     "id": sid, "property": prop, "source": "independent sub-agent (saw only the property text and a scratch worktree)",
     "files_changed": files, "demo_package": pkg,
